@@ -570,9 +570,9 @@ def analyse_recorded(text, filename='m.py', proj=None):
         raise DumpError('Flow.add_name is gone')
     created = []
 
-    def rec(self, name):
+    def rec(self, name, *a, **kw):
         created.append((self, name))
-        return orig(self, name)
+        return orig(self, name, *a, **kw)
 
     sc.Flow.add_name = rec
     try:
@@ -771,6 +771,18 @@ class Gen(object):
         if r < 0.8:
             self.kind('with')
             return [pad + 'with %s as %s:' % (self.expr(), self.name())] + sub()
+        if r < 0.84:
+            # a body that opens with a decorated def/class whose decorator reads a name bound by the
+            # enclosing construct (parameter, loop target, with target)
+            self.kind('decorated-first')
+            v = self.name()
+            deco = '@%s(%s, %s)' % (self.rng.choice(FUNCS), v, self.expr(2))
+            inner = self.rng.choice(['def %s():' % self.rng.choice(FUNCS), 'class %s(object):' % self.rng.choice(['A', 'B'])])
+            pad1 = '    ' * (indent + 1)
+            head = self.rng.choice(['def %s(%s, %s):' % (self.rng.choice(FUNCS), v, self.name()),
+                                    'for %s in %s:' % (v, self.name()), 'with %s as %s:' % (self.name(), v)])
+            body = [pad1 + deco, pad1 + inner] + self.block(depth + 2, True, False, indent + 2)
+            return [pad + head] + body + [pad1 + self.simple(False)]
         if r < 0.93:
             self.kind('def')
             args = ', '.join(self.rng.sample(NAMES, self.rng.randint(0, 2)))
